@@ -565,6 +565,7 @@ Section CmdInd.
   Hypothesis H_unset : forall n, P (CUnset n).
   Hypothesis H_setparams : forall ps, P (CSetParams ps).
   Hypothesis H_exec : forall t, P (CExec t).
+  Hypothesis H_read : forall t n l, P (CRead t n l).
 
   Fixpoint cmd_ind' (c : cmd) : P c :=
     match c with
@@ -584,6 +585,7 @@ Section CmdInd.
     | CUnset n => H_unset n
     | CSetParams ps => H_setparams ps
     | CExec t => H_exec t
+    | CRead t n l => H_read t n l
     end.
 End CmdInd.
 
@@ -650,7 +652,7 @@ Qed.
 
 Lemma compile_good n c : cmd_safe n c = true -> good n (compile c).
 Proof.
-  induction c as [a|t|t|t body a IH|t g x r m v|m v|m v|m|ps|t] using cmd_ind';
+  induction c as [a|t|t|t body a IH|t g x r m v|m v|m v|m|ps|t|t m ln] using cmd_ind';
     cbn [cmd_safe compile]; intros Hs.
   - apply good_temp_global; exact Hs.
   - replace (temp_volatile t ++ [IObsVars; IOp OPop EIgnore])
@@ -689,6 +691,13 @@ Proof.
       with ((temp_volatile t ++ [IObsEnv]) ++ [IOp OPop EIgnore]) by (rewrite <- app_assoc; reflexivity).
     apply (good_bracket n CVolatile (temp_volatile t ++ [IObsEnv])).
     apply good_app; [apply good_temp_volatile|]. intros d l Hw. cbn. auto.
+  - match goal with |- good n (IOp (OPush CVolatile) EIgnore :: ?a ++ [?c; IOp OPop EIgnore]) =>
+      replace (IOp (OPush CVolatile) EIgnore :: a ++ [c; IOp OPop EIgnore])
+        with (IOp (OPush CVolatile) EIgnore :: (a ++ [c]) ++ [IOp OPop EIgnore])
+        by (rewrite <- !app_assoc; reflexivity)
+    end.
+    apply good_bracket. apply good_app; [apply good_temp_volatile|].
+    apply good_op; [cbn [op_safe]; exact Hs|reflexivity|discriminate].
 Qed.
 
 Lemma compile_script_good n body :
